@@ -337,10 +337,13 @@ def check_C13(ctx):
     res = run_family(ctx, "universe", "MC_Universe", ["Universe_gen_%s.cfg" % t], "UniverseTrace", rand_n=200 if ctx.quick() else 3000,
                      a_cfgs=["Universe_A1.cfg", "Universe_A2.cfg"], shard=700)
     vlib.tlc_expect_violation(ctx, "MC_Universe", "Universe_A1_bugdemo.cfg", "C13_TablesAreScopeView")
+    # unbounded: any set of declared objects, any visiting order (Universe.tla itself, machine 1)
+    proved = vlib.tlaps_prove(ctx, "proofs/UniverseTablesProof.tla", with_modules=("Universe.tla", "proofs/stubs/Json.tla"))
     fails = vlib.collect_failures(res["trace"], res["bad"], "universe", only_prefix="C13")
     tr = res["trace"]
     corpus = [r for r in tr if r["case"]["kind"] == "corpus"]
     cov = {
+        "tlaps_obligations_discharged": proved,
         "traces_validated_against_impl": len(tr),
         "evaluations": len(tr),
         "distinct_nontrivial": _distinct(tr, lambda r: r["case"]["kind"] == "corpus" or len(r["case"]["features"]) >= 2,
